@@ -220,7 +220,7 @@ class FlexWindow(Strategy):
                     min_power = power
 
             # The GC may not allow to charge with optimal power during current TS
-            power = min(gc.max_power - gc.get_current_load(), power)
+            power = min(gc.cur_max_power - gc.get_current_load(), power)
             # apply power
             if gc.window:
                 p = (power if charged_in_window
@@ -251,8 +251,8 @@ class FlexWindow(Strategy):
         sim_batteries = deepcopy(batteries)
 
         # charge/discharge batteries
-        min_power = - gc.max_power
-        max_power = gc.max_power - gc.get_current_load()
+        min_power = - gc.cur_max_power
+        max_power = gc.cur_max_power - gc.get_current_load()
 
         window_timesteps = [item for item in timesteps if item["window"] is cur_window]
         new_timesteps = []
@@ -393,9 +393,9 @@ class FlexWindow(Strategy):
             # calculate power to charge / discharge
             min_power = 0
             if cur_window:
-                max_power = min(cs.max_power, gc.max_power - gc.get_current_load())
+                max_power = min(cs.max_power, gc.cur_max_power - gc.get_current_load())
             else:
-                max_power = min(cs.max_power, gc.max_power + gc.get_current_load())
+                max_power = min(cs.max_power, gc.cur_max_power + gc.get_current_load())
             total_power = 0
             while max_power - min_power > self.EPS:
                 total_power = (min_power + max_power) / 2
@@ -499,8 +499,8 @@ class FlexWindow(Strategy):
         new_timesteps = [ts for ts in timesteps if ts["window"] == charged_in_window]
 
         old_soc = [v.battery.soc for v in sim_vehicles]
-        min_total_power = -gc.max_power
-        max_total_power = gc.max_power
+        min_total_power = -gc.cur_max_power
+        max_total_power = gc.cur_max_power
 
         # find the right power to charge the precalculated soc
         while max_total_power - min_total_power > self.EPS:
@@ -547,7 +547,7 @@ class FlexWindow(Strategy):
                 vehicles, total_power - gc.get_current_load(), total_energy_needed)
         elif not charged_in_window and gc.window:
             commands = self.distribute_power(
-                vehicles, gc.max_power - gc.get_current_load(), total_energy_needed)
+                vehicles, gc.cur_max_power - gc.get_current_load(), total_energy_needed)
         for cs_id, power in commands.items():
             cs = self.world_state.charging_stations[cs_id]
             old_power = power
@@ -583,8 +583,8 @@ class FlexWindow(Strategy):
         # charge/discharge batteries
         if is_charging_mode:
             # charge battery
-            min_total_power = -gc.max_power
-            max_total_power = gc.max_power
+            min_total_power = -gc.cur_max_power
+            max_total_power = gc.cur_max_power
 
             window_timesteps = [item for item in timesteps if item["window"]]
             new_timesteps = []
@@ -638,8 +638,8 @@ class FlexWindow(Strategy):
                     break
                 new_timesteps.append(row)
 
-            min_total_power = -gc.max_power
-            max_total_power = gc.max_power
+            min_total_power = -gc.cur_max_power
+            max_total_power = gc.cur_max_power
 
             old_soc = [b.soc for b in sim_batteries]
 
@@ -749,8 +749,8 @@ class FlexWindow(Strategy):
             # charge or discharge vehicle battery
             if cur_window:
                 # charge battery
-                min_total_power = -gc.max_power
-                max_total_power = gc.max_power
+                min_total_power = -gc.cur_max_power
+                max_total_power = gc.cur_max_power
 
                 window_timesteps = [item for item in timesteps if item["window"] is True]
                 old_soc = vehicle.battery.soc
@@ -794,8 +794,8 @@ class FlexWindow(Strategy):
                 # discharge battery
                 no_window_timesteps = [item for item in timesteps if item["window"] is False]
 
-                min_total_power = -gc.max_power
-                max_total_power = gc.max_power
+                min_total_power = -gc.cur_max_power
+                max_total_power = gc.cur_max_power
 
                 old_soc = sim_vehicle.battery.soc
 
